@@ -48,7 +48,7 @@ EXTENDS Integers, Sequences, FiniteSets, TLC, Json
 
 CONSTANTS Variant,   \* "ok" | "enable_late" | "nonatomic_select" | "no_loop"
                      \*      | "wait_last_only" | "leak_writer" | "leak_reader"
-                     \*      | "unblock_no_sigchld"
+                     \*      | "unblock_no_sigchld" | "stop_is_finish"
           Scripts,   \* set of script ids explored (see Script)
           MaxP       \* bound on the number of processes ever created
 
@@ -70,7 +70,10 @@ Wr(safe)   == [k |-> "wr", safe |-> safe]           \* echo x (safe: its reader 
 Em(dr)     == [k |-> "em", dr |-> dr]               \* emit 3000: writes more than a pipe holds
                                                     \* (dr: its reader drains the pipe)
 Blk        == [k |-> "blk"]                         \* sink </tmp/fifo : blocks until killed
-Kill(v)    == [k |-> "kill", v |-> v]               \* kill -s TERM $pv
+Sig(g, v)  == [k |-> "kill", s |-> g, v |-> v]      \* kill -s TERM|STOP|CONT $pv
+Kill(v)    == Sig("TERM", v)
+Pub        == [k |-> "pub"]                         \* mypid   (writes the own pid to stdout, a pipe)
+Get(v)     == [k |-> "get", v |-> v]                \* read pv (reads a pid from stdin, a pipe)
 Sub(b)     == [k |-> "sub", b |-> b]                \* ( b )
 Cs(b)      == [k |-> "cs", b |-> b]                 \* x=$( b )
 Bg(b, v)   == [k |-> "bg", b |-> b, v |-> v]        \* { b; } &  [pv=$!]
@@ -149,6 +152,14 @@ Script(id) ==
           [] id.f = "tk3"    -> <<Bg(<<Blk>>, 1), Bg(S1(a[2]), 2), Kill(1), Sub(S1(0)), Pr(1), Wt(<<2, 1>>), Pr(2),
                                   Wt(<<1>>), Pr(3)>>
           [] id.f = "tk4"    -> <<Sub(<<Bg(<<Blk>>, 1), Sub(S1(0)), Kill(1), Wt(<<>>), Pr(1)>>), Pr(2)>>
+          \* a pipeline member is stopped and later continued (and killed) by other
+          \* processes while the shell waits for the pipeline: the wait must go on
+          [] id.f = "stop1"  -> <<Pipe(<< <<Pub, Blk>>,
+                                          <<Get(1), Sig("STOP", 1),
+                                            Bg(<<Sub(S1(0)), Sig("CONT", 1), Sig("TERM", 1)>>, 0)>> >>), Pr(1)>>
+          [] id.f = "stop2"  -> <<Pipe(<< <<Pub, Blk>>,
+                                          <<Get(1), Sig("STOP", 1), Sub(S1(a[1])), Sig("CONT", 1), Sig("TERM", 1)>> >>),
+                                  Pr(1)>>
           \* generated: GenAtoms[a[1]]; probe 1; GenAtoms[a[2]]; probe 2; ...
           [] id.f = "gen"    -> GenBody(a, 1)
   IN [id |-> id, pf |-> id.pf, body |-> body,
@@ -184,8 +195,10 @@ CatPipesEof ==
 CatBigWriter ==
   Ids("big2", {<<0>>}, B2) \cup Ids("big3a", {<<0>>, <<5>>}, B2) \cup Ids("big3b", {<<0, 0>>, <<5, 4>>}, B2)
   \cup Ids("big3c", {<<4>>}, B2) \cup Ids("big3d", {<<3>>}, B2)
+CatStop == Ids("stop1", {<<0>>}, B2) \cup Ids("stop2", {<<4>>}, B2)
+CatNegStop == Ids("stop1", {<<0>>}, {FALSE})
 CatSignals ==
-  Ids("tk1", {<<0>>, <<1>>}, {FALSE}) \cup Ids("tk2", {<<0, 4>>, <<1, 4>>}, {FALSE})
+  CatStop \cup  Ids("tk1", {<<0>>, <<1>>}, {FALSE}) \cup Ids("tk2", {<<0, 4>>, <<1, 4>>}, {FALSE})
   \cup Ids("tk3", {<<0, 3>>, <<1, 3>>}, {FALSE}) \cup Ids("tk4", {<<0>>, <<1>>}, {FALSE})
 CatAll == CatSignals \cup CatPipes \cup CatSimple \cup CatAsync \cup CatNested \cup CatPipesEof \cup CatBigWriter
 CatBig ==
@@ -227,7 +240,9 @@ TxtCmd(c) ==
     [] c.k = "wr"   -> "echo x"
     [] c.k = "em"   -> "emit 3000"
     [] c.k = "blk"  -> "sink </tmp/fifo"
-    [] c.k = "kill" -> "kill -s TERM $p" \o ToString(c.v)
+    [] c.k = "kill" -> "kill -s " \o c.s \o " $p" \o ToString(c.v)
+    [] c.k = "pub"  -> "mypid"
+    [] c.k = "get"  -> "read p" \o ToString(c.v)
     [] c.k = "sub"  -> "( " \o TxtBody(c.b) \o " )"
     [] c.k = "cs"   -> "x=$( " \o TxtBody(c.b) \o " )"
     [] c.k = "bg"   -> Brace(c.b) \o " &" \o (IF c.v = 0 THEN "" ELSE " p" \o ToString(c.v) \o "=$!")
@@ -279,7 +294,7 @@ DenCmd(c, path, e) ==
        [] c.k = "wr" -> [none EXCEPT !.e.q = IF c.safe THEN 0 ELSE ANY]
        [] c.k = "em" -> [none EXCEPT !.e.q = IF c.dr THEN 0 ELSE NZ]
        [] c.k = "blk" -> [none EXCEPT !.e.q = KS]      \* never returns: the process is killed (scripts kill it)
-       [] c.k = "kill" -> [none EXCEPT !.e.q = 0]
+       [] c.k \in {"kill", "pub", "get"} -> [none EXCEPT !.e.q = 0]
        [] c.k \in {"sub", "cs"} ->
             LET r == DenChild(c.b, Append(path, e.nf + 1), e)
             IN [e |-> [e EXCEPT !.q = r.xs, !.nf = @ + 1], pr |-> <<>>, procs |-> r.procs, gl |-> r.gl]
@@ -349,6 +364,9 @@ InitS(sc) ==
     tr    |-> [p \in Pids |-> p = Base /\ sc.tr],         \* command trap on TERM: TERM blocked outside select
     tb    |-> [p \in Pids |-> FALSE],                     \* subshell not yet entered: TERM still blocked (inherited)
     tp    |-> [p \in Pids |-> FALSE],                     \* TERM pending
+    stp   |-> [p \in Pids |-> FALSE],                     \* stopped (SIGSTOP), cannot step until continued
+    nch   |-> [p \in Pids |-> FALSE],                     \* stopped/continued: state_has_changed of a live process
+    msg   |-> [i \in 1 .. MaxP |-> <<>>],                 \* pids written to pipe i and not yet read
     n     |-> 1,                                          \* processes created so far
     np    |-> 0,                                          \* pipes created so far
     st    |-> [p \in Pids |-> IF p = Base THEN "Run" ELSE "None"],
@@ -415,7 +433,7 @@ Fork(T, p, bdy, knd, i, o, r, w) ==
                  !.pc[c] = 1, !.ph[c] = Idle, !.q[c] = T.q[p], !.bang[c] = T.bang[p],
                  !.vars[c] = T.vars[p], !.jobs[c] = <<>>, !.hd[c] = T.hd[p], !.pend[c] = FALSE,
                  !.inp[c] = i, !.out[c] = o, !.xr[c] = r, !.xw[c] = w,
-                 !.tb[c] = T.tr[p] \/ T.tb[p], !.tp[c] = FALSE,
+                 !.tb[c] = T.tr[p] \/ T.tb[p], !.tp[c] = FALSE, !.stp[c] = FALSE, !.nch[c] = FALSE,
                  !.path[c] = Append(T.path[p], T.nf[p] + 1), !.nf[p] = @ + 1]
 
 Adv(T, p) == [T EXCEPT !.pc[p] = @ + 1, !.ph[p] = Idle]
@@ -443,12 +461,17 @@ DoExit(T, p) ==
 \* t is terminated by a signal: descriptors closed, SIGCHLD at the parent
 Die(T, t, sigchld) ==
   LET U == [T EXCEPT !.st[t] = "Zombie", !.xs[t] = KS, !.inp[t] = 0, !.out[t] = 0, !.xr[t] = {}, !.xw[t] = {},
-                     !.ph[t] = Idle, !.pend[t] = FALSE, !.tb[t] = FALSE, !.tp[t] = FALSE]
+                     !.ph[t] = Idle, !.pend[t] = FALSE, !.tb[t] = FALSE, !.tp[t] = FALSE,
+                     !.stp[t] = FALSE, !.nch[t] = FALSE]
   IN IF sigchld THEN Raise(U, T.par[t]) ELSE U
 \* target of the kill command p is about to execute (0: none)
 KillTarget(T, p) == T.vars[p][Cmd(T, p).v]
 KillsNow(T, p) ==
-  LET t == KillTarget(T, p) IN t \in Pids /\ T.st[t] = "Run" /\ ~T.tb[t]
+  LET t == KillTarget(T, p) IN Cmd(T, p).s = "TERM" /\ t \in Pids /\ T.st[t] = "Run" /\ ~T.tb[t]
+StopsNow(T, p) ==
+  LET t == KillTarget(T, p) IN Cmd(T, p).s = "STOP" /\ t \in Pids /\ T.st[t] = "Run" /\ ~T.stp[t]
+ContsNow(T, p) ==
+  LET t == KillTarget(T, p) IN Cmd(T, p).s = "CONT" /\ t \in Pids /\ T.st[t] = "Run" /\ T.stp[t]
 \* status p terminates with in its next step, if that step is "exit"
 NextXs(T, p) == IF T.tb[p] THEN KS ELSE T.q[p]
 
@@ -458,7 +481,8 @@ JobsWithout(j, xs) == [x \in DOMAIN j \ xs |-> j[x]]
 \* ("probe", "fork", "reap" of ph.c, "reapany", "exit"), or "silent".
 Kind(T, p) ==
   LET h == T.ph[p] IN
-  IF T.tb[p] THEN (IF T.tp[p] THEN "exit" ELSE "silent")   \* entering the subshell unblocks TERM
+  IF T.stp[p] THEN "blocked"                               \* stopped
+  ELSE IF T.tb[p] THEN (IF T.tp[p] THEN "exit" ELSE "silent")   \* entering the subshell unblocks TERM
   ELSE
   CASE h.n = "cmd" ->
          IF AtEnd(T, p) THEN "exit"
@@ -467,13 +491,15 @@ Kind(T, p) ==
                  [] c.k = "rd" -> IF Eof(T, T.inp[p]) THEN "silent" ELSE "blocked"
                  [] c.k = "em" -> IF EmReady(T, p) THEN "silent" ELSE "blocked"
                  [] c.k = "blk" -> "blocked"
-                 [] c.k = "kill" -> IF KillsNow(T, p) THEN "kill" ELSE "silent"
+                 [] c.k = "kill" -> IF KillsNow(T, p) THEN "kill" ELSE IF StopsNow(T, p) THEN "stop"
+                                    ELSE IF ContsNow(T, p) THEN "cont" ELSE "silent"
+                 [] c.k = "get" -> IF T.inp[p] = 0 \/ T.msg[T.inp[p]] # <<>> THEN "silent" ELSE "blocked"
                  [] c.k \in {"sub", "cs", "bg"} -> "fork"
                  [] OTHER -> "silent")
     [] h.n = "pf" -> "fork"
     [] h.n = "rdeof" -> IF Eof(T, h.pp) THEN "silent" ELSE "blocked"
     [] h.n \in {"poll", "pollx"} ->
-         IF h.m = "fg" THEN (IF T.st[h.c] = "Zombie" THEN "reap" ELSE "silent")
+         IF h.m = "fg" THEN (IF T.st[h.c] = "Zombie" THEN "reap" ELSE IF T.nch[h.c] THEN "ack" ELSE "silent")
          ELSE (IF ChangedKids(T, p) # {} THEN "reapany" ELSE "silent")
     [] h.n = "slp" -> IF Variant = "nonatomic_select" \/ T.pend[p] THEN "silent" ELSE "blocked"
     [] h.n = "zz" -> IF T.pend[p] THEN "silent" ELSE "blocked"
@@ -504,9 +530,21 @@ Apply(T, p, ch) ==
          [] c.k = "em" -> Adv([T EXCEPT !.q[p] = IF T.out[p] = 0 \/ HasReader(T, T.out[p]) THEN 0 ELSE NZ], p)
          [] c.k = "kill" ->
               LET t == KillTarget(T, p) IN
-              IF KillsNow(T, p) THEN Adv([Die(T, t, TRUE) EXCEPT !.q[p] = 0], p)
-              ELSE IF t \in Pids /\ T.st[t] = "Run" THEN Adv([T EXCEPT !.tp[t] = TRUE, !.q[p] = 0], p)
+              IF KillsNow(T, p)
+              THEN (IF T.stp[t] THEN [T EXCEPT !.err = "TERM sent to a stopped process (not modelled)"]
+                    ELSE Adv([Die(T, t, TRUE) EXCEPT !.q[p] = 0], p))
+              ELSE IF StopsNow(T, p)
+              THEN Adv(Raise([T EXCEPT !.stp[t] = TRUE, !.nch[t] = TRUE, !.q[p] = 0], T.par[t]), p)
+              ELSE IF ContsNow(T, p)
+              THEN Adv(Raise([T EXCEPT !.stp[t] = FALSE, !.nch[t] = TRUE, !.q[p] = 0], T.par[t]), p)
+              ELSE IF c.s = "TERM" /\ t \in Pids /\ T.st[t] = "Run" THEN Adv([T EXCEPT !.tp[t] = TRUE, !.q[p] = 0], p)
               ELSE Adv([T EXCEPT !.q[p] = 0], p)
+         [] c.k = "pub" ->
+              Adv([T EXCEPT !.q[p] = 0, !.msg = IF T.out[p] = 0 THEN @ ELSE [@ EXCEPT ![T.out[p]] = Append(@, p)]], p)
+         [] c.k = "get" ->
+              IF T.inp[p] = 0 THEN Adv([T EXCEPT !.q[p] = 1], p)
+              ELSE Adv([T EXCEPT !.q[p] = 0, !.vars[p] = [@ EXCEPT ![c.v] = Head(T.msg[T.inp[p]])],
+                                 !.msg = [@ EXCEPT ![T.inp[p]] = Tail(@)]], p)
          [] c.k = "sub" ->
               LET U == Fork(T, p, c.b, "sub", T.inp[p], T.out[p], T.xr[p], T.xw[p])
               IN [U EXCEPT !.ph[p] = [Idle EXCEPT !.n = "en", !.m = "fg", !.c = NewPid(T)]]
@@ -555,7 +593,14 @@ Apply(T, p, ch) ==
       LET sleep == [T EXCEPT !.ph[p] = [h EXCEPT !.n = IF Variant = "enable_late" THEN "en2" ELSE "slp"]] IN
       IF h.m = "fg"
       THEN (CASE T.st[h.c] = "Zombie" -> Cont(Reap(T, h.c), p, h.c, T.xs[h.c])
-              [] T.st[h.c] = "Run" -> IF h.n = "pollx" THEN Cont(T, p, h.c, 1) ELSE sleep
+              [] T.st[h.c] = "Run" /\ T.nch[h.c] ->
+                   \* wait reports that the child was stopped or continued: not a
+                   \* termination, a pipeline goes on waiting
+                   IF Cmd(T, p).k # "pipe" THEN [T EXCEPT !.err = "stopped child of a non-pipeline (not modelled)"]
+                   ELSE IF Variant = "stop_is_finish" /\ T.stp[h.c]
+                   THEN Cont([T EXCEPT !.nch[h.c] = FALSE], p, h.c, KS)
+                   ELSE [T EXCEPT !.nch[h.c] = FALSE, !.ph[p] = [h EXCEPT !.n = "en"]]
+              [] T.st[h.c] = "Run" /\ ~T.nch[h.c] -> IF h.n = "pollx" THEN Cont(T, p, h.c, 1) ELSE sleep
               [] OTHER -> [T EXCEPT !.err = "ECHILD from wait for a foreground child"])
       ELSE IF ChangedKids(T, p) # {}
            THEN LET U == Reap(T, ch) IN
@@ -617,6 +662,8 @@ ARead(p)      == Is(p, {"rd"}) /\ Step(p)
 AWrite(p)     == Is(p, {"wr"}) /\ Step(p)
 ABigWrite(p)  == Is(p, {"em"}) /\ Step(p)
 AKill(p)      == Is(p, {"kill"}) /\ Step(p)
+APubGet(p)    == Is(p, {"pub", "get"}) /\ Step(p)
+AAck(p)       == Is(p, {"poll", "pollx"}) /\ S.ph[p].m = "fg" /\ Kind(S, p) = "ack" /\ Step(p)
 AUnblock(p)   == Is(p, {"unblock"}) /\ Step(p)
 AForkSub(p)   == Is(p, {"sub"}) /\ Step(p)
 AForkCs(p)    == Is(p, {"cs"}) /\ Step(p)
@@ -636,7 +683,7 @@ Done          == Terminated(S) /\ UNCHANGED S
 
 Next ==
   \/ \E p \in Pids :
-       \/ ASimple(p) \/ AProbe(p) \/ ARead(p) \/ AWrite(p) \/ ABigWrite(p) \/ AKill(p) \/ AUnblock(p) \/ AForkSub(p) \/ AForkCs(p) \/ AForkBg(p)
+       \/ ASimple(p) \/ AProbe(p) \/ ARead(p) \/ AWrite(p) \/ ABigWrite(p) \/ AKill(p) \/ APubGet(p) \/ AAck(p) \/ AUnblock(p) \/ AForkSub(p) \/ AForkCs(p) \/ AForkBg(p)
        \/ AForkStage(p) \/ AReadEof(p) \/ AEnable(p) \/ APollFg(p) \/ AReapFg(p) \/ APollAny(p)
        \/ AReapAny(p) \/ AWake(p) \/ AWaitChk(p) \/ AExit(p)
   \/ \E p, c \in Pids : ACollect(p, c)
